@@ -285,3 +285,65 @@ def run(ctx):
         g = ne_edges(psp, lambda a, b: isinstance(peel(a, casts=True), tuple) and peel(a, casts=True)[0] == 'bin' and peel(a, casts=True)[1] == 'Rem' and const_val(peel(a, casts=True)[3]) == 4 and const_val(b) == 0)
         okp = okp and bool(g) and not psp.must_pass(g, [it_[0][0]])
     rep.check(r4, okp, 'pad-count', 'pad loop runs 0..(4 - len %% 4) and only when len %% 4 != 0: %s' % okp)
+
+    r6 = rep.rule('C16-R6', 'call parser: every 32-bit header field, including the credential/verifier lengths, is exactly the big-endian accumulation read_u32(self, byte, <same field>, next state) - no rounding or adjustment; the opaque-body counter only counts down by one per byte', floor=9)
+    from rules.c12 import field_writes
+    rp_ = F.fn(R + 'rpc_parse')
+    def fld_of_place(pl):
+        fl = [p['f'] for p in pl['p'] if isinstance(p, dict) and 'f' in p]
+        return fl[-1] if fl else None
+
+    def src_field(bi, op):
+        if op['k'] not in ('copy', 'move'):
+            return None
+        if op['place']['p']:
+            return fld_of_place(op['place'])
+        l = op['place']['l']
+        for st in reversed(rp_.blocks[bi]['stmts']):
+            if not st['lhs']['p'] and st['lhs']['l'] == l and st['rv']['k'] == 'use' and st['rv']['a']['k'] in ('copy', 'move'):
+                return fld_of_place(st['rv']['a']['place'])
+        return None
+    pairs = collections.defaultdict(list)
+    for bi, t in rp_.calls(r'rpc::read_u32$'):
+        src = src_field(bi, t['args'][2])
+        dst = fld_of_place(t['dest']) if t['dest']['p'] else None
+        if dst is None and t['target'] >= 0:
+            for st in rp_.blocks[t['target']]['stmts']:
+                if st['rv']['k'] == 'use' and st['rv']['a'].get('k') == 'move' and st['rv']['a']['place'] == t['dest']:
+                    dst = fld_of_place(st['lhs'])
+        pairs[dst].append((bi, src))
+    other_writes = collections.defaultdict(list)
+    for bi, blk in enumerate(rp_.blocks):
+        if blk['cleanup']:
+            continue
+        for st in blk['stmts']:
+            fld = fld_of_place(st['lhs']) if st['lhs']['p'] else None
+            if fld and not (st['rv']['k'] == 'use' and st['rv']['a'].get('k') == 'move' and any(rp_.blocks[p_]['term']['k'] == 'call' and rp_.blocks[p_]['term']['dest'] == st['rv']['a']['place'] and re.search(r'read_u32$', rp_.blocks[p_]['term']['callee']) for p_ in rp_.pred[bi])):
+                other_writes[fld].append(bi)
+    for fld in ['xid', 'message_type', 'rpc_version', 'program', 'prog_version', 'procedure', 'creds_flavor', 'verif_flavor', 'data_len']:
+        sites = pairs.get(fld, [])
+        want = 2 if fld == 'data_len' else 1
+        ok = len(sites) == want and all(src == fld for _, src in sites) and not other_writes.get(fld)
+        rep.check(r6, ok, 'field:' + fld, '%s is assigned by %d read_u32 site(s) accumulating %s; other writes in rpc_parse: %d' % (fld, len(sites), [s_ for _, s_ in sites], len(other_writes.get(fld, []))), rp_.loc(sites[0][0]) if sites else '')
+    rs = F.fn(R + 'read_string')
+    dl = [rs._through(v, (bi, i), 0) for bi, i, v in field_writes(rs, 'data_len')]
+    ok = len(dl) == 1
+    if ok:
+        v = peel(dl[0], casts=True)
+        if isinstance(v, tuple) and v[0] == 'field':
+            v = v[1]
+        ok = isinstance(v, tuple) and v[0] == 'bin' and v[1] in ('Sub', 'SubWithOverflow') and const_val(v[3]) == 1 and 'data_len' in short(v[2])
+    rep.check(r6, ok, 'read_string:countdown', 'data_len <- %s' % [short(x) for x in dl])
+    # read_u32 itself: value * 256 + byte, state advance at the 4th byte
+    ru = F.fn(R + 'read_u32')
+    rv = ru._through(ru.ret_value(ru.return_blocks()[0]), (ru.return_blocks()[0], 0), 0)
+    v = peel(rv, casts=True)
+    if isinstance(v, tuple) and v[0] == 'field':
+        v = v[1]
+    ok = isinstance(v, tuple) and v[0] == 'bin' and v[1] in ('Add', 'AddWithOverflow')
+    if ok:
+        m_ = peel(v[2], casts=True)
+        if isinstance(m_, tuple) and m_[0] == 'field':
+            m_ = m_[1]
+        ok = isinstance(m_, tuple) and m_[0] == 'bin' and m_[1] in ('Mul', 'MulWithOverflow') and peel(m_[2]) == ('param', 3) and const_val(m_[3]) == 256 and peel(v[3], casts=True) == ('param', 2)
+    rep.check(r6, ok, 'read_u32:accumulate', 'read_u32 returns %s' % short(rv)[:80])
